@@ -77,6 +77,24 @@ theorem step_coherent (r : Ruler) (h : r.Coherent) (op : ROp) : (r.step op).1.Co
   | enableOnly ns ig => exact coherent_of_cache_none _ rfl
   | disable ns ig => exact coherent_of_cache_none _ rfl
   | getRules c => exact (getRules_spec r h c).2.1
+  | setLazy b ns =>
+    simp only [Ruler.step, Ruler.setLazy]
+    have : ∀ (l : List (Option String × String)) (r0 : Ruler) (acc : List String),
+        ∃ x, (enableLoopLazy b true l r0 acc).2 = .ok x := by
+      intro l
+      induction l with
+      | nil => intro r0 acc; exact ⟨_, rfl⟩
+      | cons p ps ih =>
+        intro r0 acc
+        obtain ⟨cb, n⟩ := p
+        simp only [enableLoopLazy]
+        split <;> exact ih _ _
+    obtain ⟨x, hx⟩ := this ns { r with cache := none } []
+    generalize enableLoopLazy b true ns { r with cache := none } [] = res at hx
+    obtain ⟨r', o⟩ := res
+    simp only at hx
+    subst hx
+    exact coherent_of_cache_none _ rfl
 
 theorem run_coherent (r : Ruler) (h : r.Coherent) (ops : List ROp) : (r.run ops).Coherent := by
   induction ops generalizing r with
